@@ -95,7 +95,7 @@ func (f *fields) Get(key FieldKey) (FieldValue, bool) {
 
 func (f *fields) FindKeys(name string) []FieldKey {
 	var keys []FieldKey
-	for k := range f.data {
+	for k := range f.All() {
 		if k.String() == name {
 			keys = append(keys, k)
 		}
